@@ -546,6 +546,7 @@ def check_C01(ctx):
     # claimers racing with somebody finishing / cancelling the oldest ready task
     sched_check(ctx, n // 2, {'nwriters': 2, 'nreaders': 0, 'claimers': True, 'pre_steps': 10, 'fixed': ['finish', 'finish']}, mon_C01_finish)
     missing_lock_stress(ctx)
+    legacy_claim_races(ctx)
     # claimers racing with a log rewrite (compact) on a log with squeezable history
     sched_check(ctx, n // 2, {'nwriters': 3, 'nreaders': 0, 'claimers': True, 'pre_steps': 30, 'fixed': ['compact'],
                               'pre_profile': {'weights': {'set': 60, 'new': 30, 'claim': 0, 'compact': 0, 'malformed': 0, 'prune': 0},
@@ -1147,6 +1148,55 @@ def legacy_store_races(ctx):
             finally:
                 st.close()
     ctx.cov['legacy_store_races'] = n
+
+
+def legacy_claim_races(ctx):
+    """C01 on a legacy-only store: a claimer that has resolved the log path and is about to take the lock, while
+    compact / prune / another writer run to completion; then a second claimer.  The first must have been handed the
+    oldest ready task, the store must show it doing and claimed by that agent, and the second claimer must get a
+    different task."""
+    import sched
+    n = 0
+    for other in (['compact'], ['prune', '--yes'], ['--json', 'new', 'task'], ['init']):
+        st = Store()
+        try:
+            st.run(['new', 'task'], stdin=b'{"title":"finished","state":"done"}')
+            ids = []
+            for k in range(3):
+                rc, out, _ = st.run(['--json', 'new', 'task'], stdin=json.dumps({'title': 'ready %d' % k}).encode())
+                ids.append(json.loads(out)['id'])
+            os.rename(st.log, os.path.join(st.ergodir, 'events.jsonl'))
+            ctl = sched.Controller(st)
+            try:
+                p = ctl.launch('c1', {'k': 'claim'}, ['--agent', 'first', '--json', 'claim'], None, 'lock.attempt')
+                st.run(other, stdin=b'{"title":"other"}' if other[-1] == 'task' else None)
+                while p.at is not None:
+                    ctl.release(p)
+                n += 1
+                if p.rc != 0:
+                    continue
+                won1 = json.loads(p.out).get('id')
+                rc2, out2, _ = st.run(['--agent', 'second', '--json', 'claim'])
+                won2 = json.loads(out2).get('id') if rc2 == 0 else None
+                shown = {t['id']: (t['state'], t.get('claimed_by', '')) for t in json.loads(st.run(['--json', 'list', '--all'])[1])}
+                problems = []
+                if won1 != ids[0]:
+                    problems.append('first claimer got %s, the oldest ready task was %s' % (won1, ids[0]))
+                if won1 is not None and won1 == won2:
+                    problems.append('task %s was handed to both claimers' % won1)
+                if won1 in shown and shown[won1] != ('doing', 'first') and won1 != won2:
+                    problems.append('after the claim the store shows %s as %s' % (won1, shown[won1]))
+                if problems:
+                    ctx.violations.append(('monitor', 'legacy store, claim parked before the lock while `%s` ran: %s' % (' '.join(other), '; '.join(problems)),
+                                           {'kind': 'schedule', 'commands': ['store with only events.jsonl, 3 ready tasks', '--agent first claim parked at lock.attempt', ' '.join(other),
+                                                                             'resume', '--agent second claim', 'list --all'],
+                                            'first_won': won1, 'second_won': won2, 'files': sorted(os.listdir(st.ergodir)), 'shown': {k: list(v) for k, v in shown.items()}}))
+                    return
+            finally:
+                ctl.close()
+        finally:
+            st.close()
+    ctx.cov['legacy_claim_races'] = n
 
 
 def check_C18(ctx):
